@@ -9,8 +9,9 @@ pub mod c07;
 pub mod c08;
 pub mod c16;
 pub mod c18;
+pub mod c19;
 pub mod c22;
 
 pub fn all() -> Vec<PropertyDef> {
-    vec![c01::def(), c02::def(), c03::def(), c05::def(), c06::def(), c07::def(), c08::def(), c16::def16(), c16::def17(), c18::def(), c22::def()]
+    vec![c01::def(), c02::def(), c03::def(), c05::def(), c06::def(), c07::def(), c08::def(), c16::def16(), c16::def17(), c18::def(), c19::def(), c22::def()]
 }
